@@ -1,5 +1,6 @@
 CONSTANTS
   DEVS = {"NC_ORD_LEAK"}
+  NEAR = FALSE
 SPECIFICATION Spec
 INVARIANTS Inv_L1
 CHECK_DEADLOCK FALSE
